@@ -245,6 +245,86 @@ class Lineage:
         return rets
 
 
+def keep_condition(calls):
+    """Selection of a `schema().iter()` chain as (field parameter, keep-condition AST, positive?, mapped expression) for the equivalent forms
+    filter_map(|f| if C { None } else { Some(e) }) / filter_map(|f| (C).then_some(e)) / filter(|f| C).map(|f| e); None when there is none."""
+    fm = [c for c in calls if c["m"] == "filter_map" and c["args"] and c["args"][0]["k"] == "closure" and len(c["args"][0]["params"]) == 1]
+    fl = [c for c in calls if c["m"] == "filter" and c["args"] and c["args"][0]["k"] == "closure" and len(c["args"][0]["params"]) == 1]
+    mp = [c for c in calls if c["m"] == "map" and c["args"] and c["args"][0]["k"] == "closure" and len(c["args"][0]["params"]) == 1]
+    if len(fm) == 1 and not fl:
+        cl = fm[0]["args"][0]
+        fp = pat_ident(cl["params"][0])
+        b = strip_wrappers(cl["body"])
+        while b["k"] == "block" and len(b["stmts"]) == 1 and b["stmts"][0]["k"] == "expr":
+            b = strip_wrappers(b["stmts"][0]["e"])
+        if b["k"] == "mcall" and b["m"] in ("then_some", "then") and b["args"]:
+            return fp, b["recv"], True, b["args"][0]
+        if b["k"] == "if" and b.get("else") is not None:
+            t, e = _tail_expr(b["then"]), _tail_expr(b["else"]) if b["else"]["k"] == "block" else b["else"]
+            if t is not None and e is not None:
+                if path_of(t) == "None" and is_call_to(e, "Some"):
+                    return fp, b["cond"], False, e["args"][0]
+                if path_of(e) == "None" and is_call_to(t, "Some"):
+                    return fp, b["cond"], True, t["args"][0]
+        return None
+    if len(fl) == 1 and not fm and len(mp) <= 1:
+        cl = fl[0]["args"][0]
+        fp = pat_ident(cl["params"][0]) or (pat_binds(cl["params"][0]) or [None])[0]
+        body = cl["body"]
+        while body["k"] == "block" and len(body["stmts"]) == 1 and body["stmts"][0]["k"] == "expr":
+            body = body["stmts"][0]["e"]
+        mapped = None
+        if mp:
+            mapped = mp[0]["args"][0]["body"]
+            mfp = pat_ident(mp[0]["args"][0]["params"][0])
+            if mfp and fp and mfp != fp:
+                from .canon import subst
+
+                mapped = subst(mapped, {mfp: {"k": "path", "p": fp, "segs": [fp], "l": 0}})
+        return fp, body, True, mapped
+    return None
+
+
+def keeps(cond, fp, unit, positive=True):
+    """Is a field kept when it IS the unit column `unit` (so `fp.name() == self.<unit>()` holds and the equality with the other unit column fails)?
+    Three-valued: True / False / None (depends on something else, e.g. all_values())."""
+
+    def ev(e):
+        e = strip_wrappers(e)
+        k = e["k"]
+        if k == "paren":
+            return ev(e["e"])
+        if k == "unary" and e["op"].strip() == "!":
+            v = ev(e["e"])
+            return None if v is None else not v
+        if k == "binary" and e["op"] in ("&&", "||"):
+            a, b = ev(e["lhs"]), ev(e["rhs"])
+            if e["op"] == "&&":
+                if a is False or b is False:
+                    return False
+                return True if (a is True and b is True) else None
+            if a is True or b is True:
+                return True
+            return False if (a is False and b is False) else None
+        if k == "binary" and e["op"] in ("==", "!="):
+            for x, y in ((e["lhs"], e["rhs"]), (e["rhs"], e["lhs"])):
+                x = strip_wrappers(x)
+                if x["k"] == "mcall" and x["m"] == "name" and path_of(strip_wrappers(x["recv"])) == fp:
+                    for m in ("privacy_unit", "privacy_unit_weight"):
+                        if is_self_m(y, m):
+                            eq = m == unit
+                            return eq if e["op"] == "==" else not eq
+            return None
+        if k == "lit" and e.get("t") == "bool":
+            return bool(e["v"])
+        return None
+
+    v = ev(cond)
+    if v is None:
+        return None
+    return v if positive else not v
+
+
 def k2(rep, src, T):
     rep.rule(
         "K2",
@@ -290,19 +370,12 @@ def k2(rep, src, T):
     if kinit is not None:
         root, calls = chain_calls(kinit)
         ms = [c["m"] for c in calls]
-        fm = [c for c in calls if c["m"] == "filter_map" and c["args"] and c["args"][0]["k"] == "closure"]
-        if path_of(strip_wrappers(root)) == "self" and ms[:2] == ["schema", "iter"] and len(fm) == 1 and set(ms) <= {"schema", "iter", "filter_map", "collect"}:
-            cl = fm[0]["args"][0]
-            excl = set()
-            for n in walk(cl["body"]):
-                if n["k"] == "if" and path_of(_tail_expr(n["then"]) or {"k": "x"}) == "None":
-                    for c in walk(n["cond"]):
-                        if c["k"] == "binary" and c["op"] == "==":
-                            for side in (c["lhs"], c["rhs"]):
-                                for m in ("privacy_unit", "privacy_unit_weight"):
-                                    if is_self_m(side, m):
-                                        excl.add(m)
-            okk = "privacy_unit" in excl
+        kc = keep_condition(calls)
+        if path_of(strip_wrappers(root)) == "self" and ms[:2] == ["schema", "iter"] and kc is not None and set(ms) <= {"schema", "iter", "filter_map", "filter", "map", "collect"}:
+            fp, cond, positive, mapped = kc
+            excl = {m for m in ("privacy_unit", "privacy_unit_weight") if keeps(cond, fp, m, positive) is False}
+            is_name = mapped is None or show(strip_wrappers(mapped), 0).replace(" ", "") in ("%s.name()" % fp, "%s.name().to_string()" % fp, "%s.name().into()" % fp)
+            okk = "privacy_unit" in excl and is_name
     rep.instance("K2", "keys", {"keys": keys, "definition": show(kinit, 200) if kinit else None})
     if not okk:
         rep.undecidable("K2", fq + "@keys", "`%s` is not `self.schema()` filtered to drop the privacy-unit column" % keys, f.where())
@@ -324,10 +397,20 @@ def k2(rep, src, T):
         # group-by expressions pushed once per key
         okg = False
         if G["k"] == "path":
+            # `keys.into_iter().for_each(|c| { .. })` or `for c in keys { .. }`: (parameter, body) of the per-key step
+            steps = []
             for cl, owner in _closures(f.body):
                 if owner["k"] == "mcall" and owner["m"] == "for_each":
                     r, ms = chain_root(owner)
                     if path_of(strip_wrappers(r)) == keys and set(ms) <= {"iter", "into_iter", "for_each", "cloned", "copied"} and len(cl["params"]) == 1:
+                        steps.append((cl["params"][0], cl["body"]))
+            for lp in find(f.body, "for"):
+                r, ms = chain_root(lp["e"]) if lp["e"]["k"] == "mcall" else (lp["e"], [])
+                if path_of(strip_wrappers(r)) == keys and set(ms) <= {"iter", "into_iter", "cloned", "copied"}:
+                    steps.append((lp["pat"], lp["body"]))
+            for cpat, cbody in steps:
+                    if True:
+                        cl = {"params": [cpat], "body": cbody}
                         cp = pat_ident(cl["params"][0])
                         cenv = {}
                         for s in cl["body"]["stmts"] if cl["body"]["k"] == "block" else []:
@@ -587,12 +670,11 @@ def k4(rep, src):
         if env.init_of(nm) is None:
             continue
         root, calls = chain_calls(init)
-        fm = [c for c in calls if c["m"] == "filter_map" and c["args"] and c["args"][0]["k"] == "closure"]
-        if path_of(strip_wrappers(root)) == "self" and [c["m"] for c in calls][:2] == ["schema", "iter"] and len(fm) == 1:
-            cl = fm[0]["args"][0]
-            b = strip_wrappers(cl["body"])
-            fp = pat_ident(cl["params"][0]) if len(cl["params"]) == 1 else None
-            if b["k"] == "mcall" and b["m"] == "then_some" and fp:
+        kc = keep_condition(calls)
+        if path_of(strip_wrappers(root)) == "self" and [c["m"] for c in calls][:2] == ["schema", "iter"] and kc is not None and kc[2] is True:
+            fp, keepc, _pos, _mapped = kc
+            b = {"k": "mcall", "m": "then_some", "recv": keepc, "args": [_mapped] if _mapped is not None else [], "l": init.get("l", 0)}
+            if fp:
                 cj = conjuncts(b["recv"])
                 allv = [c for c in cj if c["k"] == "mcall" and c["m"] == "all_values" and path_of(strip_wrappers(c["recv"])) == fp and not c["args"]]
                 ex = set()
